@@ -230,7 +230,19 @@ func (s *scen) run() core.Result {
 		id := verifhook.C02Seed(sd[0], sd[1], sd[2])
 		var o3 []byte
 		var e3 error
-		pi := core.Catch(func() { o3, e3 = cv.Do(ctx, desc, src) })
+		pi := core.Catch(func() {
+			if sd[0] >= 0 && sd[0]%2 == 1 || sd[1] >= 0 && sd[1]%2 == 1 {
+				// odd seeds: two deviations at once — small caches and an output buffer with cap-len = len(src)
+				b := make([]byte, 0, len(src))
+				e3 = cv.DoInto(ctx, desc, src, &b)
+				if e3 == nil {
+					o3 = b
+				}
+				r.Count("seeded_tight_buffer_runs", 1)
+				return
+			}
+			o3, e3 = cv.Do(ctx, desc, src)
+		})
 		id2, rc, kc, fc := verifhook.C02Take()
 		vsync.Controlled = false
 		r.Count("conversions", 1)
@@ -306,14 +318,19 @@ func (check) SelfCheck() error { return jt.SelfCheck() }
 
 func ksFor(tier string, small bool) []int {
 	if small {
+		n := 17
 		if tier == "thorough" {
-			return []int{0, 1, 2, 3, 4, 5, 6, 7, 8, 9, 11, 12, 13, 15, 16, 17, 23, 24, 25, 31, 32, 33, 63, 64, 65}
+			n = 40
 		}
-		return []int{0, 1, 2, 3, 4, 5, 7, 8, 9, 15, 16, 17}
+		var ks []int
+		for k := 0; k <= n; k++ {
+			ks = append(ks, k)
+		}
+		return append(ks, 63, 64, 65)
 	}
-	n := 40
+	n := 64
 	if tier == "thorough" {
-		n = 96
+		n = 160
 	}
 	var ks []int
 	for k := 0; k <= n; k++ {
